@@ -19,12 +19,31 @@ HIST = {
  "C14-b2": "MISSED by the check as it stood (and hung its in-process sections); caught after: pool gained finite streams whose production raises part-way; ALL source-program sections now run in watchdogged child processes",
  "C17-a2": "MISSED by the check as it stood; caught after: type-annotated lambda parameters added to the core-language model, freeze model, generator and theorems",
  "C17-b2": "MISSED by the check as it stood; caught after: generator produces try bodies that declare a local which the handler reads / assigns",
+ "C02-a3": "MISSED by the check as it stood; caught after: pop / remove / consume workload families through default dicts, struct fields and nested lists",
+ "C02-b3": "MISSED by the check as it stood; caught after: every container-merging builtin used as an op-assign operator on a large left operand",
+ "C03-b3": "MISSED by the check as it stood; caught after: stateful model of the chain arm (one operator lookup per position, interleaved with operand evaluation), chains whose operands reassign the chain's own operators / precedences; theorems each_operator_looked_up_at_its_position, lookup_order_is_source_order",
+ "C04-b3": "MISSED by the check as it stood; caught after: call sections with a callee slot (model form calleeMix, theorem callee_slot_section_agrees, 28 slot patterns over every registered builtin)",
+ "C05-a3": "MISSED by the check as it stood; caught after: generator form try-rethrow-unmatched (inner refutable catch pattern that does not match, outer handler computes from the caught value)",
+ "C06-a3": "MISSED by the check as it stood; caught after: all four combinations of machine-word / big production on the boundary grid x every operator",
+ "C08-a3": "MISSED by the check as it stood; caught after: incomparable pairs hidden behind an equal prefix at non-adjacent positions, judged strictly (sort must raise whenever any pair is incomparable)",
+ "C09-a3": "MISSED by the check as it stood; caught after: complex keys with a negative-zero imaginary part (and their real twins) in the key pool; theorem complex_zero_im_hash",
+ "C10-b3": "MISSED by the check as it stood; caught after: every write form also run under try/catch with the variable and an alias observed afterwards; theorems failed_write_preserves, failed_string_write_preserves",
+ "C12-a3": "MISSED by the check as it stood; caught after: multi-slot comparison patterns against sequences of length slots-1 .. slots+2; theorem comparison_destructure_length_exact",
+ "C13-a3": "MISSED by the check as it stood; caught after: join with bytes separators and empty pieces at every position; theorem joinE_eq",
+ "C13-b3": "MISSED by the check as it stood; caught after: floats and rationals in the value model (ties between ==-equal, distinguishable numbers); theorems max_first_of_ties, min_eq_head_sort",
+ "C14-a3": "MISSED by the check as it stood; caught after: advanced list-backed streams in the pool",
+ "C14-b3": "MISSED by the check as it stood; caught after: generator puts continue / break into for-header clauses (guards, iteratees) of loops nested in loops (also caught by C05 now)",
+ "C16-a3": "MISSED by the check as it stood; caught after: incompressible and low-entropy gzip inputs from 61441 bytes to 1 MiB in the quick tier",
+ "C16-b3": "MISSED by the check as it stood; caught after: every format-string case also evaluated inside freeze (two forms); theorem fmtSlots_flags_value_only",
+ "C17-a3": "MISSED by the check as it stood; caught after: generator form recursive-local-function (optionally shadowing an outer function of the same name)",
+ "C17-b3": "MISSED by the check as it stood; caught after: generator form while-cond-declares (a name declared by the while condition and used in the body, optionally shadowing an outer variable)",
 }
 def main():
     for d in sorted(os.listdir(os.path.join(ROOT, "seeded"))):
         p = os.path.join(ROOT, "seeded", d)
-        if not d.endswith("2") or not os.path.isdir(p):
+        if not (d.endswith("2") or d.endswith("3")) or not os.path.isdir(p):
             continue
+        rnd = int(d[-1])
         prop = d.split("-")[0]
         notes = open(os.path.join(p, "notes.md")).read() if os.path.exists(os.path.join(p, "notes.md")) else ""
         letter = d.split("-")[1][0].upper()
@@ -48,15 +67,15 @@ def main():
         before = [l for l in rd("demo_before.txt") if l.startswith("test result")]
         after = [l for l in rd("demo_after.txt") if l.startswith("test result")]
         meta = {
-            "property": prop, "id": d, "round": 2,
+            "property": prop, "id": d, "round": rnd,
             "what_the_author_says": says,
             "needs_to_manifest": "see notes.md (a specific boundary value / representation / multi-step sequence; ordinary use does not expose it)",
             "detected_by": sorted(k for k, v in checks.items() if v["rc"] == "1"),
             "detection_history": HIST.get(d, "caught by the check as it stood"),
             "confirmed_by_coordinator": {"existing_suite_with_change": suite, "demo_on_unchanged_tree": " | ".join(before), "demo_with_change": " | ".join(after)},
-            "what_was_run": "SUF=2 tools/seedtest.sh <prop> <a|b>: scratch worktree at /repo's HEAD: demo test (passes), git apply patch, cargo build, cargo nextest existing suite (49 pass, demos aborts as in the baseline), demo test (fails), git checkout; then under flock: git -C /repo apply patch.diff; ./check <prop>; git -C /repo checkout -- .",
+            "what_was_run": "SUF=<round> tools/seedtest.sh <prop> <a|b>: scratch worktree at /repo's HEAD: demo test (passes), git apply patch, cargo build, cargo nextest existing suite (49 pass, demos aborts as in the baseline), demo test (fails), git checkout; then under flock: git -C /repo apply patch.diff; ./check <prop>; git -C /repo checkout -- .",
             "check_results": checks,
-            "author": "independent sub-agent given only the property text, its own scratch worktree and the one-line descriptions of the round-1 changes to avoid",
+            "author": "independent sub-agent given only the property text, its own scratch worktree and the one-line descriptions of the earlier rounds' changes to avoid",
         }
         json.dump(meta, open(os.path.join(p, "meta.json"), "w"), indent=1)
         print(d, meta["detected_by"], "|", before[:1], "|", after[:1], "|", suite[:2])
